@@ -3,7 +3,8 @@
 (* Exhaustive: every abstract decoder of <= 3 instructions over every      *)
 (* input of length <= MaxN over ByteVals, run on the full input AND on     *)
 (* every strict prefix.  Checks NoFabrication / WithinInput / BoundedAlloc *)
-(* in every state and PrefixFails at the end of every run pair.            *)
+(* and TagsKnown in every state and PrefixFails at the end of every run    *)
+(* pair.                                                                   *)
 (***************************************************************************)
 EXTENDS FailClosed, TLC
 
@@ -14,13 +15,13 @@ VARIABLES full,        \* the complete input
           consumedFull, outcomeFull, phase, cut
 mvars == <<vars, full, fullProg, consumedFull, outcomeFull, phase, cut>>
 
-Instr == {<<"fix", k>> : k \in {0, 1, 2}} \cup {<<"len", 1>>, <<"cnt", 1>>, <<"opt">>}
+Instr == {<<"fix", k>> : k \in {0, 1, 2}} \cup {<<"len", 1>>, <<"cnt", 1>>, <<"opt">>, <<"tag">>}
 Progs == UNION {[1..m -> Instr] : m \in 1..MaxProg}
 Inputs == UNION {[1..m -> ByteVals] : m \in 0..MaxN}
 
 MCInit == /\ full \in Inputs /\ fullProg \in Progs
           /\ input = full /\ prog = fullProg /\ cursor = 0 /\ alloc = 0
-          /\ outcome = "running" /\ got = <<>>
+          /\ outcome = "running" /\ got = <<>> /\ tags = <<>>
           /\ consumedFull = -1 /\ outcomeFull = "none" /\ phase = "full" /\ cut = -1
 
 \* after the full run, restart on each strict prefix in turn
@@ -32,7 +33,7 @@ NextCut ==
      ELSE /\ cut' = cut + 1 /\ UNCHANGED <<consumedFull, outcomeFull, phase>>
   /\ cut' < Len(full)
   /\ input' = SubSeq(full, 1, cut') /\ prog' = fullProg /\ cursor' = 0 /\ alloc' = 0
-  /\ outcome' = "running" /\ got' = <<>>
+  /\ outcome' = "running" /\ got' = <<>> /\ tags' = <<>>
   /\ UNCHANGED <<full, fullProg>>
 
 MCNext == \/ (Step /\ UNCHANGED <<full, fullProg, consumedFull, outcomeFull, phase, cut>>)
